@@ -7,12 +7,7 @@ import sys
 HERE = os.path.dirname(os.path.dirname(os.path.abspath(__file__)))
 sys.path.insert(0, HERE)
 
-NA_FIXED = {
-    "C20": "statement is entirely about values of special functions (nct.ppf, chi2.ppf, binomial tails, a Newton and a "
-           "brentq iteration) over a continuous parameter domain; the code is a direct transcription into scipy calls "
-           "with no sibling, table, partition, format or state whose shape a static rule could compare - no sound "
-           "static argument bounds these quantities (DESIGN.md section 3, C20)",
-}
+NA_FIXED = {}
 
 props = [json.loads(l) for l in open(os.path.join(HERE, "properties.jsonl"))]
 checks, na = [], []
